@@ -19,6 +19,7 @@ import (
 	"fmt"
 	"os"
 	"runtime"
+	"strings"
 	"time"
 
 	"github.com/ElrondNetwork/elrond-go/core"
@@ -99,6 +100,8 @@ type thread struct {
 	returned  bool
 	retErr    error
 	run       int    // StartProcessing minus EndProcessing calls observed
+	starts    int    // StartProcessing calls that went through this thread's decorator
+	ends      int    // EndProcessing calls that went through this thread's decorator
 	pending   string // an announced call that has not been granted yet
 	leaked    bool
 	handler   func() error
@@ -163,7 +166,7 @@ func message(data []byte, from core.PeerID) *mock.P2PMessageMock {
 
 func antiflood(sub string) *mock.P2PAntifloodHandlerStub {
 	topicCalls := 0
-	pref := sub == "prefok" || sub == "prefinvalid" || sub == "selfok"
+	pref := strings.HasPrefix(sub, "pref") || sub == "selfok"
 	return &mock.P2PAntifloodHandlerStub{
 		CanProcessMessageCalled: func(p2p.MessageP2P, core.PeerID) error {
 			if sub == "flood" || pref { // preferred / self messages must not even get here
@@ -179,7 +182,7 @@ func antiflood(sub string) *mock.P2PAntifloodHandlerStub {
 			return nil
 		},
 		IsOriginatorEligibleForTopicCalled: func(core.PeerID, string) error {
-			if sub == "noteligible" || sub == "whitelisted" {
+			if sub == "noteligible" || sub == "whitelisted" || sub == "noteligiblelast" {
 				return errStub
 			}
 			return nil
@@ -188,32 +191,61 @@ func antiflood(sub string) *mock.P2PAntifloodHandlerStub {
 	}
 }
 
-func interceptedData(sub string) *testscommon.InterceptedDataStub {
+// interceptedData builds the stub for one element: `elem` decides what the element itself does (validity, shard),
+// `sub` is the class of the whole message
+func interceptedData(elem, sub string) *testscommon.InterceptedDataStub {
 	return &testscommon.InterceptedDataStub{
 		CheckValidityCalled: func() error {
-			switch sub {
+			switch elem {
 			case "invalid", "prefinvalid":
 				return errStub
-			case "wrongversion":
+			case "wrongversion", "prefwrongversion":
 				return process.ErrInvalidTransactionVersion
+			case "wrongchain":
+				return process.ErrInvalidChainID
 			}
 			return nil
 		},
-		IsForCurrentShardCalled: func() bool { return sub != "othershard" && sub != "whitelisted" },
-		HashCalled:              func() []byte { return []byte("hash") },
+		IsForCurrentShardCalled: func() bool { return elem != "othershard" && sub != "whitelisted" },
+		HashCalled:              func() []byte { return []byte(elem) },
 		TypeCalled:              func() string { return "verif" },
 		IdentifiersCalled:       func() [][]byte { return [][]byte{[]byte("id")} },
 		StringCalled:            func() string { return "verif" },
 	}
 }
 
+// factory: the element's bytes name the element class (single interceptor: the message class itself)
 func factory(sub string) *mock.InterceptedDataFactoryStub {
-	return &mock.InterceptedDataFactoryStub{CreateCalled: func([]byte) (process.InterceptedData, error) {
-		if sub == "badcreate" {
+	return &mock.InterceptedDataFactoryStub{CreateCalled: func(buff []byte) (process.InterceptedData, error) {
+		elem := string(buff)
+		if elem == "badcreate" {
 			return nil, errStub
 		}
-		return interceptedData(sub), nil
+		return interceptedData(elem, sub), nil
 	}}
+}
+
+// elements of a batch for a message class of the multi data interceptor
+func elements(sub string) []string {
+	switch sub {
+	case "ok2":
+		return []string{"ok", "ok"}
+	case "wvfirst":
+		return []string{"wrongversion", "ok"}
+	case "wvlast":
+		return []string{"ok", "wrongversion"}
+	case "wclast":
+		return []string{"ok", "wrongchain"}
+	case "invalidlast":
+		return []string{"ok", "invalid"}
+	case "badcreatelast":
+		return []string{"ok", "badcreate"}
+	case "othershardlast":
+		return []string{"ok", "othershard"}
+	case "noteligiblelast":
+		return []string{"wl", "ok"} // originator not eligible: the first element is white listed, the second is not
+	}
+	return []string{sub}
 }
 
 func processor(sub string) *mock.InterceptorProcessorStub {
@@ -234,11 +266,13 @@ func processor(sub string) *mock.InterceptorProcessorStub {
 }
 
 func whitelist(sub string) *testscommon.WhiteListHandlerStub {
-	return &testscommon.WhiteListHandlerStub{IsWhiteListedCalled: func(process.InterceptedData) bool { return sub == "whitelisted" }}
+	return &testscommon.WhiteListHandlerStub{IsWhiteListedCalled: func(d process.InterceptedData) bool {
+		return sub == "whitelisted" || string(d.Hash()) == "wl"
+	}}
 }
 
 func holder(sub string) *p2pmocks.PeersHolderStub {
-	return &p2pmocks.PeersHolderStub{ContainsCalled: func(core.PeerID) bool { return sub == "prefok" || sub == "prefinvalid" }}
+	return &p2pmocks.PeersHolderStub{ContainsCalled: func(core.PeerID) bool { return strings.HasPrefix(sub, "pref") }}
 }
 
 // sender returns the connected peer and the message for a sub-kind
@@ -266,7 +300,7 @@ func buildSingle(th *thread) {
 	if err != nil {
 		panic(err)
 	}
-	msg, from := interceptorInput(th.sub, []byte("payload"))
+	msg, from := interceptorInput(th.sub, []byte(th.sub))
 	th.handler = func() error { return sdi.ProcessReceivedMessage(msg, from) }
 }
 
@@ -278,11 +312,14 @@ func buildMulti(th *thread) {
 	if err != nil {
 		panic(err)
 	}
-	if th.sub == "chunkerr" || th.sub == "chunkpart" {
+	if th.sub == "chunkerr" || th.sub == "chunkpart" || th.sub == "chunkcomplete" {
 		sub := th.sub
 		_ = mdi.SetChunkProcessor(&mock.ChunkProcessorStub{CheckBatchCalled: func(*batch.Batch, process.WhiteListHandler) (process.CheckedChunkResult, error) {
-			if sub == "chunkerr" {
+			switch sub {
+			case "chunkerr":
 				return process.CheckedChunkResult{}, errStub
+			case "chunkcomplete":
+				return process.CheckedChunkResult{IsChunk: true, HaveAllChunks: true, CompleteBuffer: []byte("ok")}, nil
 			}
 			return process.CheckedChunkResult{IsChunk: true, HaveAllChunks: false}, nil
 		}})
@@ -293,10 +330,12 @@ func buildMulti(th *thread) {
 		data = []byte{0xff, 0xff, 0xff}
 	case "empty":
 		data = []byte{}
-	case "ok2":
-		data, _ = marsh.Marshal(&batch.Batch{Data: [][]byte{[]byte("a"), []byte("b")}})
 	default:
-		data, _ = marsh.Marshal(&batch.Batch{Data: [][]byte{[]byte("a")}})
+		var els [][]byte
+		for _, e := range elements(th.sub) {
+			els = append(els, []byte(e))
+		}
+		data, _ = marsh.Marshal(&batch.Batch{Data: els})
 	}
 	msg, from := interceptorInput(th.sub, data)
 	th.handler = func() error { return mdi.ProcessReceivedMessage(msg, from) }
@@ -407,6 +446,10 @@ func (sc *scenario) account(th *thread, op string, res bool, racedLabel bool, sc
 		sc.log("Check", th.id, M{"ok": res})
 	case "Start":
 		th.run++
+		th.starts++
+		if th.starts > 1 {
+			sc.unbalanced(th, "a second StartProcessing for one message")
+		}
 		if th.kind == "checked" {
 			sc.running++
 		}
@@ -422,11 +465,22 @@ func (sc *scenario) account(th *thread, op string, res bool, racedLabel bool, sc
 		}
 	case "End":
 		th.run--
+		th.ends++
 		if th.kind == "checked" {
 			sc.running--
 		}
 		sc.log("End", th.id, M{"x": 0})
+		if th.ends > th.starts {
+			sc.unbalanced(th, "EndProcessing without a matching StartProcessing")
+		}
 	}
+}
+
+// unbalanced: the call counts of the decorator show that one message started/ended the throttler a wrong number of times
+func (sc *scenario) unbalanced(th *thread, what string) {
+	sc.odd = true
+	sc.r.violation("start-end-unbalanced/"+sc.path+"/"+th.sub, fmt.Sprintf("%s path, message class %s: %s (%d StartProcessing, %d EndProcessing calls for this message); "+
+		"events: %s", sc.path, th.sub, what, th.starts, th.ends, sc.summary()), sc.detail())
 }
 
 func (sc *scenario) summary() string {
@@ -447,6 +501,15 @@ func (sc *scenario) detail() M {
 		evs[i] = M{"a": e.a, "in": e.in, "out": e.out}
 	}
 	return M{"max": sc.max, "path": sc.path, "kinds": kinds, "observed_events": evs}
+}
+
+// open = StartProcessing calls minus EndProcessing calls seen by the decorators (the throttler's counter, as it should be)
+func (sc *scenario) open() int {
+	n := 0
+	for _, th := range sc.ths {
+		n += th.starts - th.ends
+	}
+	return n
 }
 
 // drainThread lets one thread run to completion, granting every call at once
@@ -510,6 +573,11 @@ func (th *thread) perform2() bool {
 }
 
 func (sc *scenario) quiesce() {
+	for _, th := range sc.ths {
+		if th.starts != th.ends && !th.leaked && th.ends < th.starts {
+			sc.unbalanced(th, "the message was handled but its task was never ended")
+		}
+	}
 	free := 0
 	for sc.real.CanProcess() && free < sc.max+8 {
 		sc.real.StartProcessing()
@@ -604,6 +672,8 @@ func (sc *scenario) play(steps []vtrace.Step) {
 				}
 			} else if want := vtrace.Int(s.St["running"]); want != sc.running {
 				sc.diverge(fmt.Sprintf("%d admitted tasks running after %s(%d), the specification predicts %d", sc.running, op, t, want))
+			} else if want, got := vtrace.Int(s.St["counter"]), sc.open(); want != got {
+				sc.diverge(fmt.Sprintf("StartProcessing minus EndProcessing calls = %d after %s(%d), the specification's counter is %d", got, op, t, want))
 			}
 		default:
 			sc.r.broken("unknown step " + s.A)
